@@ -55,11 +55,11 @@ prop("C05", [PL.rule_PL1, PL.rule_PL3, PL.rule_PL7, PN.rule_PN_plugin, SQ.rule_S
      "only mutators write, pending work is re-queued at start-up and on idle wake-up, loaders agree (PL7); no tower reply or repeated notification reaches an unwrap (PNp). "
      "NOT decided: SIGKILL durability, exactly-one-of accounting across towers over a history.",
      technique="reply-class enumeration by CFG reachability + classified-unwrap table + SQL insert classification")
-prop("C06", [RT.rule_AU1, RO.rule_OR2_watcher],
+prop("C06", [RT.rule_AU1, RO.rule_OR2_watcher, RT.rule_SB],
      STATIC + "Decided for add_appointment / get_appointment / get_subscription_info: nothing that takes a lock (reads or writes tower state) is reachable before authenticate_user succeeded and "
      "has_subscription_expired was found false; the expired path is effect-free; every user id flowing into UUID::new / ExtendedAppointment::new / add_update_appointment / get_user_info / "
      "has_subscription_expired is the Ok payload of authenticate_user; the signed message is the request-specific one and its template equals what the client signs; "
-     "authenticate_user returns Ok only for a recovered key that is a registered user; appointments of different users under one locator are handled independently per block (OR2w: every (locator, uuid) pair is visited, a failure of one never ends the loop). NOT decided: cryptographic claims, isolation over multi-user histories.",
+     "authenticate_user returns Ok only for a recovered key that is a registered user; appointments of different users under one locator are handled independently per block (OR2w: every (locator, uuid) pair is visited, a failure of one never ends the loop); the expiry the check reads moves only with an accepted, persisted renewal (SB all-or-nothing). NOT decided: cryptographic claims, isolation over multi-user histories.",
      technique="branch-fact dataflow + origin tracing (identity provenance) + literal cross-check")
 prop("C07", [RT.rule_SL, LK.rule_AT2, RO.rule_EF2, RO.rule_EF3, SQ.rule_SQ3, SQ.rule_SQ5_tower, LK.rule_CBS],
      STATIC + "Decided: the only subtraction of slots is guarded by `required - used <= available` and equals available - (slots(new) - slots(stored for this uuid)); renewal uses checked_add; "
